@@ -501,6 +501,7 @@ type FuncContract struct {
 	Assumed  bool // assume-contract (external / trusted)
 	Pure     bool // result is a function of the arguments (and heaps read); callers get a UF
 	Opts     map[string]string
+	Defines  []*Clause // unit-local definitional axioms for declared-only spec functions
 	File     string
 	Line     int
 	Reads    []string
@@ -599,8 +600,12 @@ func (cs *ContractSet) ParseContractText(pkgPath, file, text string) error {
 				pk = key[:i]
 				key = key[i+2:]
 			}
-			cur = &FuncContract{Key: key, Pkg: pk, Loops: map[int]*LoopContract{}, Assumed: assumed, Opts: map[string]string{}, File: file, Line: ln + 1}
-			cs.Funcs[pk+"::"+key] = cur
+			if prev, ok := cs.Funcs[pk+"::"+key]; ok && prev.Assumed == assumed {
+				cur = prev // a contract may be written in several pieces
+			} else {
+				cur = &FuncContract{Key: key, Pkg: pk, Loops: map[int]*LoopContract{}, Assumed: assumed, Opts: map[string]string{}, File: file, Line: ln + 1}
+				cs.Funcs[pk+"::"+key] = cur
+			}
 			curLoop = nil
 			pending = nil
 		case "requires", "ensures", "trusted-ensures":
@@ -621,6 +626,15 @@ func (cs *ContractSet) ParseContractText(pkgPath, file, text string) error {
 				cur.Ensures = append(cur.Ensures, c)
 			}
 			pending = c
+		case "defines":
+			if cur == nil {
+				return fmt.Errorf("%s:%d: defines outside func", file, ln+1)
+			}
+			c, err := mk("defines")
+			if err != nil {
+				return err
+			}
+			cur.Defines = append(cur.Defines, c)
 		case "loop":
 			if cur == nil {
 				return fmt.Errorf("%s:%d: loop outside func", file, ln+1)
